@@ -190,6 +190,18 @@ def op_table():
         cf.addcolumn(cf.a, "c"); m.cols["c"] = list(m.cols["a"])
     add("addcolumn_new_from_column", lambda m: "a" in m.cols and "c" not in m.cols, f_add_from_a)
 
+    # two columns given as OVERLAPPING views of one longer array (bin edges: lo = e[:-1], hi = e[1:]), and a column given as the reversed
+    # view of another column of the table: afterwards they are independent columns with those values
+    def f_overlap(cf, m, w):
+        e = fresh(m.nrows + 1, 15)
+        cf.a = e[:-1]; cf.b = e[1:]
+        m.cols["a"] = e[:-1].tolist(); m.cols["b"] = e[1:].tolist()
+    add("setattr_a_b_from_overlapping_views", lambda m: "a" in m.cols and "b" in m.cols and m.nrows >= 1, f_overlap)
+
+    def f_reversed_view(cf, m, w):
+        cf.b = cf.a[::-1]; m.cols["b"] = list(m.cols["a"])[::-1]
+    add("setattr_b_from_reversed_view_of_a", lambda m: "a" in m.cols and "b" in m.cols and m.nrows >= 2, f_reversed_view)
+
     def f_getbig(cf, m, w):
         big = cf.bigarray
         got = np.asarray(big, float)
